@@ -135,6 +135,82 @@ Theorem c06_elements_after_gc :
            (forall id : N, id <> anext (m_elements m) -> aget (m_elements m') id = aget (m_elements m1) id).
 Proof. exact gc_elements_full. Qed.
 
+(* ---- the behavioural half at MODULE level (Proofs/SemGc.v over the executable call semantics of Proofs/SemCalls.v): removing every function
+   outside a set that is closed under calls / ref.func and contains every function reference of the state leaves every run from a kept function
+   unchanged, for every fuel; composed with an injective renumbering (what the pass does to the function index space) the outcome is the
+   original one up to the renaming of references; the set reachable from the exports and the initial state is such a set (least fixpoint over
+   a finite index range), so sequences of export calls behave identically; removing a reachable function changes behaviour (witness).
+   Interface left per operator: a non-call operator cannot invent a function reference (shown for reference-moving operators). *)
+From Coq Require Import String.
+From WV Require Import Proofs.SemCalls Proofs.SemGc.
+Theorem c06_dropping_unreachable_functions_preserves_behaviour :
+  forall (op : Type) (step_op : op -> state -> option state) (keep : N -> bool),
+         (forall (o : op) (st st' : state),
+          state_closed keep st -> step_op o st = Some st' -> state_closed keep st') ->
+         forall (fuel : nat) (M : module op) (f : N) (st : state),
+         closed_under op keep M ->
+         state_closed keep st ->
+         keep f = true -> run op step_op fuel (restrict op keep M) f st = run op step_op fuel M f st.
+Proof. exact restrict_preserves_behaviour. Qed.
+
+Theorem c06_gc_preserves_behaviour :
+  forall (op : Type) (step_op : op -> state -> option state) (keep : N -> bool),
+         (forall (o : op) (st st' : state),
+          state_closed keep st -> step_op o st = Some st' -> state_closed keep st') ->
+         forall rho rho_inv : N -> N,
+         (forall f : N, rho_inv (rho f) = f) ->
+         (forall (o : op) (st : state),
+          step_op o (rename_state rho st) = option_map (rename_state rho) (step_op o st)) ->
+         forall (fuel : nat) (M : module op) (f : N) (st : state),
+         closed_under op keep M ->
+         state_closed keep st ->
+         keep f = true ->
+         run op step_op fuel (rename_module op rho rho_inv (restrict op keep M)) (rho f) (rename_state rho st) =
+         rename_outcome rho (run op step_op fuel M f st).
+Proof. exact gc_preserves_behaviour. Qed.
+
+Theorem c06_reachable_set_is_closed :
+  forall (op : Type) (univ : list N) (M : module op) (names : list string) (st0 : state),
+         refs_in_univ op univ M ->
+         (forall g : N, In g (roots_of op M names st0) -> In g univ) ->
+         let keep := reachable op univ M names st0 in
+         closed_under op keep M /\
+         state_closed keep st0 /\
+         (forall (n : string) (f : N), In n names -> exports op M n = Some f -> keep f = true).
+Proof. exact reachable_is_closed. Qed.
+
+Theorem c06_export_call_sequences_behave_the_same :
+  forall (op : Type) (step_op : op -> state -> option state) (n : nat) (M : module op)
+           (names : list string) (st0 : state),
+         (forall (o : op) (st st' : state),
+          state_closed (reachable op (range n) M names st0) st ->
+          step_op o st = Some st' -> state_closed (reachable op (range n) M names st0) st') ->
+         (forall (f : N) (b : body op) (g : N),
+          funcs op M f = Some b -> In g (body_refs op b) -> (g < N.of_nat n)%N) ->
+         (forall g : N, In g (roots_of op M names st0) -> (g < N.of_nat n)%N) ->
+         forall rho rho_inv : N -> N,
+         (forall f : N, rho_inv (rho f) = f) ->
+         (forall (o : op) (st : state),
+          step_op o (rename_state rho st) = option_map (rename_state rho) (step_op o st)) ->
+         forall (fuel : nat) (ns : list string),
+         (forall nm : string, In nm ns -> In nm names) ->
+         run_exports op step_op fuel
+           (rename_module op rho rho_inv (restrict op (reachable op (range n) M names st0) M)) ns
+           (rename_state rho st0) = rename_outcome rho (run_exports op step_op fuel M ns st0).
+Proof. exact gc_reachable_exports_sequence. Qed.
+
+Theorem c06_interface_holds_for_reference_moving_operators :
+  forall (keep : N -> bool) (o : cop) (st st' : state),
+         state_closed keep st -> cstep o st = Some st' -> state_closed keep st'.
+Proof. exact cstep_closed. Qed.
+
+Theorem c06_dropping_a_reachable_function_differs :
+  exists (keep : N -> bool) (M : module cop) (f : N) (st : state),
+           keep f = true /\
+           state_closed keep st /\ run cop cstep 50 (restrict cop keep M) f st <> run cop cstep 50 M f st.
+Proof. exact dropping_a_reachable_function_differs. Qed.
+
+
 Print Assumptions c06_reachable_kept.
 Print Assumptions c06_closed.
 Print Assumptions c06_roots_kept.
@@ -149,3 +225,9 @@ Print Assumptions c06_gc_declares_all_referenced.
 Print Assumptions c06_gc_declares_all_referenced_wf.
 Print Assumptions c06_sweep_alone_leaves_undeclared.
 Print Assumptions c06_elements_after_gc.
+Print Assumptions c06_dropping_unreachable_functions_preserves_behaviour.
+Print Assumptions c06_gc_preserves_behaviour.
+Print Assumptions c06_reachable_set_is_closed.
+Print Assumptions c06_export_call_sequences_behave_the_same.
+Print Assumptions c06_interface_holds_for_reference_moving_operators.
+Print Assumptions c06_dropping_a_reachable_function_differs.
